@@ -72,8 +72,46 @@ static void run_recycled(const Program& p, int pidx, const char* tag, int how, s
   }
 }
 
+// mode 3: detach + attach. The leading new-label / new-section commands of the stream are executed first (they only change the
+// HOLDER's counters: C16_reattach_*, fresh_on_holder); then the builder records junk (section switches among the existing
+// sections, data, a dangling one-shot state), is detached and attached again -- the holder keeps its labels and sections -- and
+// executes the rest of the stream. C08's model runs the whole stream from its initial state (prefix = with_counts).
+template<typename BuilderT>
+static void run_reattached(const Program& p, int pidx, const char* tag, std::string& out) {
+  Env env;
+  env.code.init(Environment(arch_of(p.arch)));
+  env.sections.push_back(env.code.text_section());
+  BuilderT b(&env.code);
+  if (p.flags & 4) b.add_diagnostic_options(DiagnosticOptions::kValidateIntermediate | DiagnosticOptions::kValidateAssembler);
+  BuilderCtx bc; bc.b = &b;
+  char buf[128];
+  size_t prefix = 0;
+  while (prefix < p.cmds.size() && (p.cmds[prefix].k == "NL" || p.cmds[prefix].k == "NS")) prefix++;
+  for (size_t i = 0; i < p.cmds.size(); i++) {
+    if (i == prefix) {
+      uint8_t data[24]; memset(data, 0x5A, sizeof(data));
+      (void)b.embed(data, sizeof(data));
+      for (size_t k = env.sections.size(); k-- > 0;) (void)b.section(env.sections[k]);
+      (void)b.embed(data, 5);
+      (void)b.comment("earlier use");
+      b.set_inline_comment("dangling");
+      b.add_inst_options(InstOptions::kOverwrite);
+      (void)env.code.detach(&b);
+      (void)env.code.attach(&b);
+      bc.pool.clear();
+    }
+    const Cmd& c = p.cmds[i];
+    uint32_t e = is_edit(c.k) ? apply_edit(bc, c) : apply(&b, env, c);
+    prune_pool(bc);
+    if (!list_intact(&b)) { out += "p" + std::to_string(pidx) + " CORRUPT " + tag + " " + std::to_string(i) + "\n"; break; }
+    std::string d = dump(bc, uint32_t(env.sections.size()));
+    snprintf(buf, sizeof(buf), "p%d %s %zu %u %" PRIu64 "\n", pidx, tag, i, e, hash_str(d));
+    out += buf;
+  }
+}
+
 int main(int argc, char** argv) {
-  int how = argc > 1 ? atoi(argv[1]) : 0;        // 0 reinit, 1 soft reset + init + attach, 2 hard reset + init + attach
+  int how = argc > 1 ? atoi(argv[1]) : 0;        // 0 reinit, 1 soft reset + init + attach, 2 hard reset + init + attach, 3 detach + attach (holder kept)
   std::string line;
   Program p; bool in_ref = false; int pidx = -1; bool have = false;
   while (std::getline(std::cin, line)) {
@@ -92,7 +130,11 @@ int main(int argc, char** argv) {
     if (t[0] == "END") {
       std::string out;
       if (!(p.flags & 2)) {
-        if (p.arch == 2) { run_recycled<a64::Builder>(p, pidx, "STEP", how, out); run_recycled<a64::Compiler>(p, pidx, "STEPC", how, out); }
+        if (how == 3) {
+          if (p.arch == 2) { run_reattached<a64::Builder>(p, pidx, "STEP", out); run_reattached<a64::Compiler>(p, pidx, "STEPC", out); }
+          else { run_reattached<x86::Builder>(p, pidx, "STEP", out); run_reattached<x86::Compiler>(p, pidx, "STEPC", out); }
+        }
+        else if (p.arch == 2) { run_recycled<a64::Builder>(p, pidx, "STEP", how, out); run_recycled<a64::Compiler>(p, pidx, "STEPC", how, out); }
         else { run_recycled<x86::Builder>(p, pidx, "STEP", how, out); run_recycled<x86::Compiler>(p, pidx, "STEPC", how, out); }
       }
       fputs(out.c_str(), stdout); fflush(stdout); have = false; continue;
